@@ -38,6 +38,19 @@
 // Returns true if a is closer to cutoff than a/2.
 static inline int closer(rci_t a, int cutoff) { return 3 * a < 4 * cutoff; }
 
+// Returns true if the word-aligned split used below would leave an empty quadrant
+// (a dimension in [4*cutoff/3, 2*mult) is not "closer" to the cutoff but has no two words to split).
+static inline int empty_split(rci_t m, rci_t k, rci_t n, int cutoff) {
+  rci_t mult  = m4ri_radix;
+  rci_t width = MIN(MIN(m, n), k) / 2;
+  while (width > cutoff) {
+    width /= 2;
+    mult *= 2;
+  }
+  return (((m - m % mult) / m4ri_radix) >> 1) == 0 || (((k - k % mult) / m4ri_radix) >> 1) == 0 ||
+         (((n - n % mult) / m4ri_radix) >> 1) == 0;
+}
+
 mzd_t *_mzd_mul_even(mzd_t *C, mzd_t const *A, mzd_t const *B, int cutoff) {
   rci_t mmm, kkk, nnn;
 
@@ -48,7 +61,7 @@ mzd_t *_mzd_mul_even(mzd_t *C, mzd_t const *A, mzd_t const *B, int cutoff) {
   rci_t n = B->ncols;
 
   /* handle case first, where the input matrices are too small already */
-  if (closer(m, cutoff) || closer(k, cutoff) || closer(n, cutoff)) {
+  if (closer(m, cutoff) || closer(k, cutoff) || closer(n, cutoff) || empty_split(m, k, n, cutoff)) {
     /* we copy the matrices first since it is only constant memory overhead and improves data
        locality */
     if (mzd_is_windowed(A) | mzd_is_windowed(B) | mzd_is_windowed(C)) {
@@ -212,7 +225,7 @@ mzd_t *_mzd_sqr_even(mzd_t *C, mzd_t const *A, int cutoff) {
 
   m = A->nrows;
   /* handle case first, where the input matrices are too small already */
-  if (closer(m, cutoff)) {
+  if (closer(m, cutoff) || empty_split(m, m, m, cutoff)) {
     /* we copy the matrices first since it is only constant memory overhead and improves data
        locality */
     if (mzd_is_windowed(A) | mzd_is_windowed(C)) {
@@ -375,7 +388,7 @@ mzd_t *_mzd_addmul_even(mzd_t *C, mzd_t const *A, mzd_t const *B, int cutoff) {
   rci_t n = B->ncols;
 
   /* handle case first, where the input matrices are too small already */
-  if (closer(m, cutoff) || closer(k, cutoff) || closer(n, cutoff)) {
+  if (closer(m, cutoff) || closer(k, cutoff) || closer(n, cutoff) || empty_split(m, k, n, cutoff)) {
     /* we copy the matrices first since it is only constant memory overhead and improves data
        locality */
     if (mzd_is_windowed(A) | mzd_is_windowed(B) | mzd_is_windowed(C)) {
@@ -534,7 +547,7 @@ mzd_t *_mzd_addsqr_even(mzd_t *C, mzd_t const *A, int cutoff) {
   rci_t m = A->nrows;
 
   /* handle case first, where the input matrices are too small already */
-  if (closer(m, cutoff)) {
+  if (closer(m, cutoff) || empty_split(m, m, m, cutoff)) {
     /* we copy the matrices first since it is only constant memory overhead and improves data
        locality */
     if (mzd_is_windowed(A) | mzd_is_windowed(C)) {
